@@ -40,6 +40,7 @@ def render_manifest(g, builddir=None, style=None):
     main = []
     inc = []
     inc_range = style.get("include")
+    builddir = builddir or g.get("builddir") or None
     if builddir:
         main.append("builddir = %s" % builddir)
     for name, depth in g.get("pools", []):
@@ -108,7 +109,7 @@ def render_manifest(g, builddir=None, style=None):
 
 def graph(steps, pools=(), defaults=()):
     return {"steps": list(steps), "pools": [list(p) for p in pools], "defaults": list(defaults),
-            "spell": []}
+            "spell": [], "builddir": ""}
 
 SPELLINGS = [lambda p: "./" + p, lambda p: "zq/../" + p, lambda p: "./zq/.././" + p, lambda p: ".//" + p,
              lambda p: ".\\" + p, lambda p: "zq\\..\\" + p]
